@@ -285,6 +285,48 @@ pub fn gen_case(shape: &[CK], rng: &mut Rng, exhaustive_cut: Option<usize>) -> C
     Case { calls, script, trailing, sizes, evs }
 }
 
+/// Big batches: a `more` call answered by 8..30 continuing replies of 0.5..2.5 KiB (17..50 KiB in all) followed by the
+/// replies of the rest of the chain and 0..2 frames of a later exchange, everything available at once (or in two
+/// large pieces) and read with large reads; the peer then stays silent or closes. Every owed reply must come out of
+/// the one buffered batch and the later exchange's frames must still be there afterwards.
+pub fn gen_big(rng: &mut Rng) -> Case {
+    let shape: Vec<CK> = match rng.below(3) { 0 => vec![CK::More, CK::Plain], 1 => vec![CK::Plain, CK::More], _ => vec![CK::More, CK::Oneway, CK::More] };
+    let calls: Vec<(CK, Call<M1>)> = shape.iter().map(|k| (*k, mk_call(*k, rng))).collect();
+    let mut script = vec![];
+    let big_name = |rng: &mut Rng| -> String { let n = rng.range(500, 2500); (0..n).map(|i| (b'a' + ((i + n) % 26) as u8) as char).collect() };
+    let nmore = shape.iter().filter(|k| matches!(k, CK::More)).count();
+    let per = rng.range(8, 30) / nmore.max(1) + 1;
+    for k in &shape {
+        match k {
+            CK::Oneway => {}
+            CK::Plain => script.push(final_reply(rng, true)),
+            CK::More => {
+                for _ in 0..per {
+                    let nm = big_name(rng);
+                    script.push((format!("{{\"parameters\":{{\"name\":\"{nm}\"}},\"continues\":true}}").into_bytes(), 'c'));
+                }
+                script.push(final_reply(rng, true));
+            }
+        }
+    }
+    let ntrail = rng.below(3);
+    let trailing: Vec<Vec<u8>> = (0..ntrail).map(|_| final_reply(rng, true).0).collect();
+    let mut stream = vec![];
+    for (f, _) in &script {
+        stream.extend_from_slice(f);
+        stream.push(0);
+    }
+    for f in &trailing {
+        stream.extend_from_slice(f);
+        stream.push(0);
+    }
+    let cuts = if rng.chance(1, 2) { vec![] } else { vec![rng.range(1, stream.len() - 1)] };
+    let sizes = if rng.chance(2, 3) { vec![] } else { vec![rng.range(2000, 9000); 100] };
+    let close = rng.chance(1, 2);
+    let evs = events(&stream, script.len(), trailing.len(), rng, cuts, close);
+    Case { calls, script, trailing, sizes, evs }
+}
+
 pub fn main(o: &Opts) {
     let mut rng = Rng::new(o.seed ^ 0x636861);
     let mut em = Emitter::new(o.index);
@@ -312,6 +354,14 @@ pub fn main(o: &Opts) {
                 vec![line(&c, &obs)]
             });
         }
+    }
+    for _ in 0..(if o.thorough() { 80 } else { 8 }) {
+        let mut r2 = Rng::new(rng.next());
+        em.case(|| {
+            let c = gen_big(&mut r2);
+            let obs = run_case(&c);
+            vec![line(&c, &obs)]
+        });
     }
     // every single cut position of the reply bytes for short chains
     let nshort = if o.thorough() { 60 } else { 12 };
